@@ -515,6 +515,12 @@ class PFold(Fold):
             l2 = P.strip(l)
             if l2.name == "padsv":
                 env[padname(l2)] = rvals[i] if i < len(rvals) else S("undef")
+        # @a = @b : a whole-array copy; elements of @a that are not stored afterwards keep the elements of @b
+        if len(lhs_ops) == 1 and len(rhs_ops) == 1 and P.strip(lhs_ops[0]).name == "padav" and P.strip(rhs_ops[0]).name == "padav":
+            self.array_copies = getattr(self, "array_copies", {})
+            if not self.loop_stack and self.depth == 0:
+                if not any(e_.get("array") == padname(P.strip(lhs_ops[0])) for e_ in self.events):      # nothing stored into it before the copy
+                    self.array_copies[padname(P.strip(lhs_ops[0]))] = padname(P.strip(rhs_ops[0]))
         return None
 
     def assigned_scalars(self, op):
